@@ -13,12 +13,13 @@ def run(chk):
     chk.mc('sxr-definitions', 'MC_Metrics', 'MC_Metrics.cfg' if q else 'MC_Metrics_t.cfg', workers=8, timeout=3000)
     recs = core.run_driver('metrics', tier=chk.tier, seed=chk.seed)
     chk.validate('metrics', 'Trace_Metrics', 'Trace_Metrics.cfg', recs, driver='metrics', jobs=14)
-    good = [r for r in recs if r['kind'] == 'output' and r['exc'] == '' and not r['avg_src'] and len(r['images']) >= 2][0]
+    goods = [r for r in recs if r['kind'] == 'output' and r['exc'] == '' and not r['avg_src'] and len(r['images']) >= 2]
+    good = goods[0]
 
     def corrupt(r):
         r['out']['sir'][0][0][0] += 4096
         return r
-    core.binding_demo(chk, 'bind-sir', 'Trace_Metrics', 'Trace_Metrics.cfg', good, corrupt, 'sir')
+    core.binding_demo(chk, 'bind-sir', 'Trace_Metrics', 'Trace_Metrics.cfg', good, corrupt, 'sir', candidates=goods[1:])
     chk.assumptions = ['dB values are inverted by the encoder (10^(x/10)); comparisons in 20-bit Flt (about 1e-5 relative)',
                        'output selections with exactly tied captured power are not compared (tie_skipped)']
 
